@@ -7,7 +7,7 @@
    Definitions only: the executable model, the case type written by harness/cmd/h08, the
    correspondence check [corr08] and the monitors [mon08] [mon09] [mon10].               *)
 From Verif Require Export Common.
-From Verif Require Import Gen_HookFail.
+From Verif Require Import Gen_HookFail Gen_StartArgs.
 From Coq Require Import ZArith List Bool.
 Import ListNotations.
 Open Scope N_scope.
@@ -668,12 +668,18 @@ Inductive orec :=
 Record oerr := mkOerr { oe_trig : mname; oe_count : N; oe_ids : list (N * N); oe_tasks : list N }.
 Inductive ores := XOk | XHook (l : list oerr) | XBody | XInvalid | XOther.
 
+(* what the task transition told the tasks about the run: the arguments runNumber,
+   run_start_time_ms, run_start_completion_time_ms, run_end_time_ms, run_end_completion_time_ms of
+   the TransitionTasks message (VAbsent: not in the message) *)
+Record opush := mkOpush { op_rn : ov; op_sosor : ov; op_eosor : ov; op_soeor : ov; op_eoeor : ov }.
+
 Record opobs := mkOpobs {
   oo_res : ores;
   oo_state : st;
   oo_pend : list (point * (N * N) * bool);     (* await point, (hook, op), cancelled *)
   oo_rn : N;
-  oo_vars : osnap }.
+  oo_vars : osnap;
+  oo_push : option opush }.                    (* None: no message seen (injected body, GO_ERROR) *)
 
 Record obs := mkObs { ob_recs : list orec; ob_ops : list opobs; ob_crashed : bool; ob_hung : bool }.
 
@@ -844,13 +850,51 @@ Definition pend_match (p : list (point * inst)) (o : list (point * (N * N) * boo
 Definition is_cancel_op (o : op) : bool :=
   match o_kind o with OLeaveCancel | OTeardown => true | _ => false end.
 
+(* the argument map of the real START_ACTIVITY / STOP_ACTIVITY transition objects, as far as the run
+   is concerned: the run number (START only) and those of the four stamps that are in the key
+   list (read from the source: Gen_StartArgs), each present iff the variable exists, with its
+   value - the empty value of a cleared stamp included.  Computed from the variables after the
+   operation: the built-in work that follows the task transition does not touch what is pushed
+   (START writes only the start-completion stamp afterwards, STOP only the end-completion one). *)
+Definition pushed (flag : bool) (v : sv) : option sv := if flag then Some v else None.
+Record push := mkPush { p_rn : option (option N); p_sosor : option sv; p_eosor : option sv;
+                        p_soeor : option sv; p_eoeor : option sv }.
+Definition push_of (e : evt) (r : rvars) : option push :=
+  match e with
+  | START_ACTIVITY =>
+    Some (mkPush (Some (rv_var r)) (pushed gen_start_push_sosor (rv_sosor r)) (pushed gen_start_push_eosor SEmpty)
+                 (pushed gen_start_push_soeor (rv_soeor r)) (pushed gen_start_push_eoeor (rv_eoeor r)))
+  | STOP_ACTIVITY =>
+    Some (mkPush None None None (pushed gen_stop_push_soeor (rv_soeor r)) (pushed gen_stop_push_eoeor SEmpty))
+  | _ => None
+  end.
+Definition psv_match (m : option sv) (o : ov) : bool :=
+  match m with Some v => sv_ov_match v o | None => match o with VAbsent => true | _ => false end end.
+Definition push_match (e : option evt) (r : rvars) (o : option opush) : bool :=
+  match o with
+  | None => true
+  | Some po =>
+    match e with
+    | Some ev =>
+      match push_of ev r with
+      | Some p =>
+        (match p_rn p with Some n => rn_ov_match n (op_rn po) | None => true end) &&
+        psv_match (p_sosor p) (op_sosor po) && psv_match (p_eosor p) (op_eosor po) &&
+        psv_match (p_soeor p) (op_soeor po) && psv_match (p_eoeor p) (op_eoeor po)
+      | None => false
+      end
+    | None => false
+    end
+  end.
+
 (* per operation: result class, state, pending calls, run number field, variables *)
 Definition opobs_match (o : op) (x : list tev * result * est) (oo : opobs) : bool :=
   let '(_, res, s) := x in
   res_match res (oo_res oo) && st_eqb (e_st s) (oo_state oo) &&
   pend_match (e_pend s) (oo_pend oo) &&
   forallb (fun e => Bool.eqb (snd e) (is_cancel_op o)) (oo_pend oo) &&
-  (rv_rn (e_rv s) =? oo_rn oo) && snap_match (e_rv s) (oo_vars oo).
+  (rv_rn (e_rv s) =? oo_rn oo) && snap_match (e_rv s) (oo_vars oo) &&
+  push_match (match o_kind o with OEvent e => Some e | _ => None end) (e_rv s) (oo_push oo).
 
 Fixpoint ops_match (ops : list op) (l : list (list tev * result * est)) (oos : list opobs) : bool :=
   match l, oos, ops with
@@ -1412,6 +1456,10 @@ Definition mon09 (c : c08_case) : N :=
           9 crash or hang
          10 the run was ended by forcing the ERROR state after a failed GO_ERROR: end timestamps
             missing, number kept
+         12 what the tasks were told with the START_ACTIVITY / STOP_ACTIVITY transition disagrees with
+            the variables of this run: run number, start stamp, end stamp (also a cleared, empty
+            one must be pushed as such - otherwise the task keeps the value of the previous run),
+            or a completion stamp of a previous run was pushed
          11 a GO_ERROR transition ran to the end of after_GO_ERROR while a start stamp without end
             stamps was there (a run that failed to start, or whose task transition failed, or that
             was running), yet an end stamp is still empty afterwards: the end of that run is not
@@ -1517,6 +1565,20 @@ Fixpoint mon10_ops (hooks : list hook) (ops : list op) (oos : list opobs) (segs 
                  | _, _ => if forced && res_is_err (oo_res oo) then 10 else 5
                  end
                else 0);
+              (* 12: the pushed arguments agree with the variables of this run *)
+              (match oo_push oo with
+               | Some po =>
+                 let unset_or_absent x := match x with VSet _ => false | _ => true end in
+                 if evt_eqb e START_ACTIVITY then
+                   if ov_eqb (op_rn po) (os_rn v) && ov_eqb (op_sosor po) (os_sosor v) &&
+                      ov_eqb (op_soeor po) (os_soeor v) &&
+                      unset_or_absent (op_eosor po) && unset_or_absent (op_eoeor po)
+                   then 0 else 12
+                 else if evt_eqb e STOP_ACTIVITY then
+                   if ov_eqb (op_soeor po) (os_soeor v) && unset_or_absent (op_eoeor po) then 0 else 12
+                 else 0
+               | None => 0
+               end);
               (* 11: a completed GO_ERROR closes whatever run was begun *)
               (if evt_eqb e GO_ERROR && (2 <=? Nlen (filter (is_OM_begin (SMoment (MAfter GO_ERROR))) recs)) then
                  match os_sosor prev, os_sosor v with
